@@ -32,7 +32,7 @@ func init() {
 			"Key ids: TokenKeyID() of type 1/2/3/5 issuers == SHA-256(reference serialization) and requests of types 1, 2, 5 carry byte 31 of it (keys whose id has different first and last bytes); type-3 requests carry SHA-256(reference EncapKey encoding) as name key id. " +
 			"Related keys in sequence: issuers over the same modulus with different exponents, keys whose hex(N)||hex(E) coincide decoded back to back in both forms, keys decoded from accepted encodings with other PSS parameters / trailing bytes must encode to the prescribed DER (and give its SHA-256 as key id), name keys decoded from encoding||trailing bytes. " +
 			"distinct_nontrivial = distinct (modulus byte length, top bit, exponent class) and (issuer type, key) keys",
-		Floors:      []string{"pss_der_equals_reference", "legacy_der_equals_reference", "unmarshal_inverts_pss", "unmarshal_inverts_legacy", "x509_accepts_legacy", "rust_pks_anchor", "key_id_type1", "key_id_type2", "key_id_type3", "key_id_type5", "truncated_key_id_last_byte", "name_key_id", "name_key_id_decoded_suites", "key_id_same_modulus_other_exponent", "related_keys_decoded_back_to_back", "decoded_key_encodes_to_prescribed_der", "modulus_containing_pem_block", "key_id_odd_size_moduli"},
+		Floors:      []string{"pss_der_equals_reference", "legacy_der_equals_reference", "unmarshal_inverts_pss", "unmarshal_inverts_legacy", "x509_accepts_legacy", "rust_pks_anchor", "key_id_type1", "key_id_type2", "key_id_type3", "key_id_type5", "truncated_key_id_last_byte", "name_key_id", "name_key_id_decoded_suites", "key_id_same_modulus_other_exponent", "related_keys_decoded_back_to_back", "decoded_key_encodes_to_prescribed_der", "modulus_containing_pem_block", "key_id_odd_size_moduli", "moduli_with_chosen_leading_octets", "moduli_containing_der_fragments"},
 		Assumptions: []string{"encoding needs no factorisation: synthetic moduli are arbitrary positive integers", "go-hpke's X25519 key derivation and crypto/x509 are trusted"},
 		Run:         runC18,
 	})
@@ -218,6 +218,42 @@ func c18Related(c *core.Ctx, rk []*rsa.PrivateKey) {
 			body[len(body)-1] |= 1
 			c18Key(c, new(big.Int).SetBytes(body), 65537, fmt.Sprintf("syn:pem-inside-modulus:legacy=%v", legacy))
 			c.Class("modulus_containing_pem_block")
+		}
+		// moduli whose LEADING octets are what a DER INTEGER minimiser looks at (ff ff.., ff 80.., 80 00.., 00-free,
+		// 7f ff..), in several sizes; and moduli that contain the DER fragments a decoder searches the key for (the
+		// rsaEncryption and RSASSA-PSS OIDs with their tags, the hash and MGF1 OIDs, NULL parameters, a whole
+		// AlgorithmIdentifier of the other form)
+		for _, lead := range [][]byte{{0xff, 0xff}, {0xff, 0x80}, {0xff, 0x7f}, {0xff, 0xff, 0xff, 0x80}, {0x80, 0x00}, {0x80, 0x00, 0x00}, {0x7f, 0xff}, {0x01, 0x00}, {0xff, 0x00}, {0xfe, 0xff}, {0x01}} {
+			for _, size := range []int{128, 256, 257, 512} {
+				body := r.Bytes(size)
+				copy(body, lead)
+				body[len(body)-1] |= 1
+				c18Key(c, new(big.Int).SetBytes(body), []int{65537, 3}[size%2], fmt.Sprintf("syn:leading-octets-%x:%d", lead, size))
+				c.Class("moduli_with_chosen_leading_octets")
+			}
+		}
+		pa, ra := spkiAlgs()
+		frags := [][]byte{
+			{0x06, 0x09, 0x2a, 0x86, 0x48, 0x86, 0xf7, 0x0d, 0x01, 0x01, 0x01},                         // OID rsaEncryption
+			{0x06, 0x09, 0x2a, 0x86, 0x48, 0x86, 0xf7, 0x0d, 0x01, 0x01, 0x0a},                         // OID RSASSA-PSS
+			{0x06, 0x09, 0x2a, 0x86, 0x48, 0x86, 0xf7, 0x0d, 0x01, 0x01, 0x08},                         // OID MGF1
+			{0x06, 0x09, 0x60, 0x86, 0x48, 0x01, 0x65, 0x03, 0x04, 0x02, 0x02},                         // OID SHA-384
+			{0x2a, 0x86, 0x48, 0x86, 0xf7, 0x0d, 0x01, 0x01, 0x01, 0x05, 0x00},                         // rsaEncryption + NULL
+			{0x30, 0x0d, 0x06, 0x09, 0x2a, 0x86, 0x48, 0x86, 0xf7, 0x0d, 0x01, 0x01, 0x01, 0x05, 0x00}, // AlgorithmIdentifier
+			pa, ra,
+		}
+		for fi, frag := range frags {
+			for _, at := range []int{1, 60, 256 - len(frag) - 1} {
+				if at < 1 {
+					continue
+				}
+				body := r.Bytes(256)
+				body[0] |= 0x80
+				copy(body[at:], frag)
+				body[255] |= 1
+				c18Key(c, new(big.Int).SetBytes(body), 65537, fmt.Sprintf("syn:der-fragment-%d-inside-modulus@%d", fi, at))
+				c.Class("moduli_containing_der_fragments")
+			}
 		}
 		for bits := 2033; bits <= 2056; bits++ {
 			n := new(big.Int).SetBytes(r.Bytes((bits + 7) / 8))
